@@ -2,7 +2,7 @@
    Only statements, each closed by [exact]; proofs live in Proofs/Kafka.v.
    assemble_* / disassemble_* / the data flow of Commit are the definitions of Gen/KafkaGen.v,
    regenerated from /repo/plugin/input/kafka/kafka.go on every check. *)
-From Verif Require Import Base.Sx Base.GoSem Model.KafkaInt Gen.KafkaGen Model.Kafka Proofs.Kafka Model.KafkaGroup Proofs.KafkaGroup.
+From Verif Require Import Base.Sx Base.GoSem Model.KafkaInt Gen.KafkaGen Model.Kafka Proofs.Kafka Model.KafkaGroup Proofs.KafkaGroup Model.PipeGlue Model.C10Entry Proofs.C10Entry.
 
 (* Inside the stated ranges (topic index < 2^48 — wider than any topics list —, partitions 0..65535,
    offsets 0..2^47-1, leader epochs 0..65535) unpacking a packed value returns exactly the topic
@@ -296,6 +296,29 @@ Proof. vm_compute. split; [reflexivity | exact I]. Qed.
 Theorem c10_spread_routing_is_on : gen_use_spread = true.
 Proof. reflexivity. Qed.
 Print Assumptions c10_spread_routing_is_on.
+
+(* Frontier clause on pipeline traces, commit notifications outside the output path (monitor 18 of the pipeline-level
+   cases, Model/C10Entry.v).  A record an action discards / collapses is FINISHED (label 4 33 with notify = 0, back = 1 puts
+   it into `fin`), but a commit notification (label 4 38) for a record that was never handed to the output (no label 3 32
+   for its (stream, seq)) is no evidence for earlier records: when the monitor accepts a trace, at every such notification
+   every accepted record of the same source with a smaller offset is already finished. *)
+Theorem c10_direct_commit_frontier :
+  forall e r fin accepted key_of outs,
+    is_k 4 38 e = true ->
+    m_direct_frontier (e :: r) fin accepted key_of outs = true ->
+    (mem_key (pa e, pb e) outs = true \/
+     forall k, In k accepted -> fst k = pd e -> snd k < pc e -> mem_key k fin = true) /\
+    m_direct_frontier r ((pd e, pc e) :: fin) accepted key_of outs = true.
+Proof. exact direct_frontier_commit. Qed.
+Print Assumptions c10_direct_commit_frontier.
+
+(* monitor 18 asks no more than the frontier clause itself (monitor 8): whatever trace satisfies the per-source frontier
+   for all notifications satisfies it for the notifications outside the output path *)
+Theorem c10_direct_frontier_weaker_than_frontier :
+  forall es fin accepted key_of outs,
+    m_source_frontier es fin accepted key_of = true -> m_direct_frontier es fin accepted key_of outs = true.
+Proof. exact direct_frontier_weaker. Qed.
+Print Assumptions c10_direct_frontier_weaker_than_frontier.
 
 (* non-vacuity: the values of kafka_test.go; two topics, a later offset committed before an
    earlier one of the same partition, a leader change; the ranges hold; and the epoch -1 note *)
